@@ -48,7 +48,7 @@ def WaitLogin (ρ : Role) (p : Pat) (lits : List String) : Sess := .call "WaitLo
 
 def stripStdPromptBody : Sess :=
   -- the prompt has just been matched by waitPrompt, so it is found again
-  .ite .never "¬$FindStringIndex != nil" (.abort ["Missing prompt '%s' in response:\n'%v'", "_", "_"]) .skip ;;
+  .ite .never "¬$v != nil" (.abort ["Missing prompt '%s' in response:\n'%v'", "_", "_"]) .skip ;;
   .ret .none ["_"]
 def StripStdPrompt : Sess := .call "StripStdPrompt" ["_"] stripStdPromptBody
 
@@ -92,7 +92,7 @@ def asaCheckBody (ρ : Role) : Sess :=
 def asaCheck (ρ : Role) : Sess := .call "check" ["_"] (asaCheckBody ρ)
 
 def asaCmdBody (ρ : Role) (t : Txt) : Sess :=
-  Send ρ t ;; asaCheck ρ ;; .ite .joined "$Cut.2 != \"\"" (asaCheck ρ) .skip
+  Send ρ t ;; asaCheck ρ ;; .ite .joined "$v.2 != \"\"" (asaCheck ρ) .skip
 def asaCmd (ρ : Role) (t : Txt) (lits : List String) : Sess := .call "cmd" lits (asaCmdBody ρ t)
 
 def asaApplyBody : Sess :=
@@ -168,7 +168,7 @@ def asaLoadDevice : Sess :=
 def iosSendReloadCmdBody (withDo : Bool) : Sess :=
   IssueCmd .setup (.lit (if withDo then "do reload in 2" else "reload in 2")) (.special [.saveAsk, .confirm])
     ["_", "\\[yes\\/no\\]:\\ |\\[confirm\\]"] ;;
-  .ite (.flag .saveAsk) "strings.Contains($r.Conn.IssueCmd($Sprintf, `\\[yes\\/no\\]:\\ |\\[confirm\\]`), \"[yes/no]\")"
+  .ite (.flag .saveAsk) "strings.Contains($r.Conn.IssueCmd($v, \"\\\\[yes\\\\/no\\\\]:\\\\ |\\\\[confirm\\\\]\"), \"[yes/no]\")"
     (IssueCmd .setup (.lit "n") (.special [.confirm]) ["n", "\\[confirm\\]"]) .skip ;;
   SendCmd .setup (.lit "") [""]
 def iosSendReloadCmd (withDo : Bool) : Sess :=
@@ -202,8 +202,8 @@ def iosCheckBody (ρ : Role) : Sess :=
 def iosCheck (ρ : Role) : Sess := .call "check" ["_"] (iosCheckBody ρ)
 
 def iosCmdBody (ρ : Role) (t : Txt) : Sess :=
-  Send ρ t ;; iosCheck ρ ;; .ite .joined "$Cut.2 != \"\"" (iosCheck ρ) .skip ;;
-  .ite .never "$const" iosExtendReload .skip
+  Send ρ t ;; iosCheck ρ ;; .ite .joined "$v.2 != \"\"" (iosCheck ρ) .skip ;;
+  .ite .never "$v" iosExtendReload .skip
 def iosCmd (ρ : Role) (t : Txt) (lits : List String) : Sess := .call "cmd" lits (iosCmdBody ρ t)
 
 def iosWriteMemBody : Sess :=
@@ -214,7 +214,7 @@ def iosWriteMemBody : Sess :=
       (GetCmdOutput .save (.lit "") [""]) .skip ;;
     .ite (.flag .okMark) "strings.Contains($IssueCmd, \"[OK]\")" (.ret .none []) .skip ;;
     .ite (.flag .openFailed) "strings.Contains($IssueCmd, \"startup-config file open failed\")"
-      (.ite .ctrPos "$const > 0" (.decCtr ;; .cont) .skip ;;
+      (.ite .ctrPos "$v > 0" (.decCtr ;; .cont) .skip ;;
        .abort ["write mem: startup-config open failed - giving up"]) .skip ;;
     .abort ["write mem: unexpected result: %s", "_"])
 def iosWriteMem : Sess := .call "writeMem" [] iosWriteMemBody
@@ -235,7 +235,7 @@ def iosLogVersionBody : Sess := GetCmdOutput .read (.lit "sh ver") ["sh ver"]
 /-- the name is taken from everything in front of the prompt: a garbled echo spoils it too -/
 def iosCheckDeviceNameBody : Sess :=
   IssueCmd .read (.lit "") .std ["", "#[ ]?"] ;;
-  .ite (.or (.not (.flag .nameOk)) .echoBad) "$p1 != $TrimSpace" (.abort ["Wrong device name: %q, expected: %q", "_", "_"]) .skip
+  .ite (.or (.not (.flag .nameOk)) .echoBad) "$p1 != $v" (.abort ["Wrong device name: %q, expected: %q", "_", "_"]) .skip
 
 def iosLoadDevice : Sess :=
   consolePrologue ;;
@@ -256,7 +256,7 @@ def linuxCheckBody (ρ : Role) : Sess :=
 def linuxCheck (ρ : Role) : Sess := .call "check" ["_"] (linuxCheckBody ρ)
 
 def linuxCmdBody (ρ : Role) (t : Txt) : Sess :=
-  Send ρ t ;; linuxCheck ρ ;; .ite .joined "$Cut.2 != \"\"" (linuxCheck ρ) .skip ;;
+  Send ρ t ;; linuxCheck ρ ;; .ite .joined "$v.2 != \"\"" (linuxCheck ρ) .skip ;;
   GetCmdOutput .probe (.lit "echo $?") ["echo $?"] ;;
   .ite (.not (.flag .status0)) "$r.conn.GetCmdOutput(\"echo $?\") != \"0\\n\""
     (.abort ["%s failed (exit status)", "_"]) .skip
@@ -274,7 +274,7 @@ def linuxWriteStartup (what : String) : Sess := .call "writeStartup" ["_", "_", 
 
 def linuxFindRestoreBody : Sess :=
   GetCmdOutput .read (.lit "which iptables-restore") ["which iptables-restore"] ;;
-  .ite (.not (.flag .restorePath)) "¬strings.HasSuffix($TrimSpace, \"iptables-restore\")"
+  .ite (.not (.flag .restorePath)) "¬strings.HasSuffix($v, \"iptables-restore\")"
     (.abort ["Can't find path of 'iptables-restore'"]) .skip ;;
   .ret .none ["_"]
 def linuxFindRestore : Sess := .call "findIPTablesRestoreCmd" [] linuxFindRestoreBody
@@ -284,12 +284,12 @@ def linuxWriteStartupRoutingBody : Sess := linuxWriteStartup "routing"
 
 def linuxApplyBody : Sess :=
   .forEach (linuxCmd .change .cur ["_"]) ;;
-  .ite .ipt "$expr.iptables != \"\""
+  .ite .ipt "$v.iptables != \"\""
     (.call "writeStartupIPTables" ["_", "_"] linuxWriteStartupIPTablesBody ;;
      linuxCmd .change (.lit "chmod a+x /etc/network/packet-filter.new") ["_"] ;;
      linuxCmd .change (.lit "/etc/network/packet-filter.new") ["_"] ;;
      linuxCmd .change (.lit "mv -f /etc/network/packet-filter.new /etc/network/packet-filter") ["_"]) .skip ;;
-  .ite .planNonEmpty "len($expr.routes) != 0"
+  .ite .planNonEmpty "len($v.routes) != 0"
     (.call "writeStartupRouting" ["_", "_"] linuxWriteStartupRoutingBody) .skip ;;
   .ret .nil ["nil"]
 
